@@ -56,8 +56,12 @@ func (t ArrayItemTuple) asGenericTuple() Tuple {
 
 // Hash computes a hash for a CharTuple.
 func (t ArrayItemTuple) Hash(seed uintptr) uintptr {
-	h := hash.Int(t.at, seed)
-	return t.item.Hash(h)
+	// Finished under the caller's seed: the bare item.Hash(hash.Int(at, seed))
+	// is also what (@: at, @item: x) contributes to the hash of a tuple nested
+	// the other way round, e.g. (@: (@: 1, @item: a), @value: b) and
+	// (@: 1, @item: (@: a, @value: b)) used to hash alike under every seed, and
+	// frozen identifies the elements of a set by their hash.
+	return finishHash(t.item.Hash(hash.Int(t.at, seed)), seed)
 }
 
 // Equal tests two Tuples for equality. Any other type returns false.
